@@ -3,6 +3,8 @@
    hit in the mapping is the new URI prefix n; step applies it to every record. *)
 From Curies.model Require Import Str PyData Trie Conv Query Val Answer Spec CheckQ Mutate Reconcile.
 From Curies.proofs Require Import StrFacts IndexFacts QueryFacts C04Facts MutateFacts ReconcileFacts.
+From Curies.model Require Import CheckR.
+From Curies.proofs Require Import PModelR12.
 
 (* TransitiveError exactly when some string is both a key and a value *)
 Theorem C12_transitive : forall c m, remap_uri_records c m = Raise ETransitive <-> exists s, In s (map fst m) /\ In s (map snd m).
@@ -32,7 +34,7 @@ Theorem C12_clash_noop : forall c r n skip, dhas n (rpmap c) = true -> ~ In n (r
 Proof. exact repoint_clash_noop. Qed.
 Print Assumptions C12_clash_noop.
 Theorem C12_registered_means : forall c, swf c -> forall n, dhas n (rpmap c) = true <-> exists y, In y (recs c) /\ In n (all_uris y).
-Proof. exact known_uri. Qed.
+Proof. exact ReconcileFacts.known_uri. Qed.
 Print Assumptions C12_registered_means.
 
 (* rewiring a CURIE prefix unknown to the converter adds nothing *)
@@ -64,3 +66,9 @@ Example C12_nonvacuous :
     (exists R, rewire c [([97], [105])] = Val R /\ recs R = [r [97] [105] [] [[104]]; r [98] [106] [] []]))%N.
 Proof. eexists. split; [vm_compute; reflexivity|]. split; [eexists; split; vm_compute; reflexivity|]. split; [vm_compute; reflexivity|].
   eexists; split; vm_compute; reflexivity. Qed.
+
+(* the executable predicate of the run accepts the model's own observation on every valid case (remap_uri_prefixes and rewire) *)
+Theorem C12_P_model : forall k : rcase, valid_r k = true ->
+  (match rc_op k with DRemapUri _ | DRewire _ => True | _ => False end) -> P_C12 k (model_robs k) = true.
+Proof. exact P_C12_model. Qed.
+Print Assumptions C12_P_model.
